@@ -11,6 +11,7 @@ for rel, cf in contract.REGISTRY.items():
     tu = cast.load(rel)
     fns = sorted({k.split('#')[0] for k in cf.kernels})
     out[rel] = {f: cproof.decl_list(tu['functions'][f]) for f in fns if f in tu['functions']}
+    out[rel].update({'#npar:' + f: len(cast.params_of(tu['functions'][f])) for f in fns if f in tu['functions']})
 loops = {}
 for rel, cf in contract.REGISTRY.items():
     tu = cast.load(rel)
